@@ -1,5 +1,5 @@
 (* C02 — Offsets are dense, increasing and never reused. *)
-From KV Require Import Base Model Spec LogInv PublishProofs.
+From KV Require Import Base Model Spec LogInv PublishProofs History.
 
 (* Publish of n messages on a read-write log in any state satisfying Inv (any segment layout, after any
    deletes, with or without rollover, whatever offsets the caller put into the messages) succeeds,
@@ -33,3 +33,28 @@ Proof.
   induction l as [|a l IH]; [reflexivity|]. cbn [list_eqb]. now rewrite Z.eqb_refl, IH.
 Qed.
 Print Assumptions C02_publish_checker.
+
+(* never reused: in any history on a directory (publishes, deletes of the newest messages or of everything,
+   close and reopen in any mode, migration, recovery), the offsets assigned by all successful publishes are
+   pairwise distinct, strictly increasing in order of assignment, and all below the final NextOffset *)
+Theorem C02_never_reused :
+  forall ops outs a, NoDup (assigned a ops outs).
+Proof. exact assigned_nodup. Qed.
+Print Assumptions C02_never_reused.
+
+Theorem C02_assigned_increasing :
+  forall ops outs a, zinc_from (anext a) (assigned a ops outs).
+Proof. exact assigned_increasing. Qed.
+Print Assumptions C02_assigned_increasing.
+
+Theorem C02_assigned_below_next :
+  forall ops outs a x, In x (assigned a ops outs) -> x < anext (spec_run a ops outs).
+Proof. exact assigned_below_next. Qed.
+Print Assumptions C02_assigned_below_next.
+
+(* and the abstract run is what the model does on every history (C01_history), NextOffset of a new log is 0 *)
+Theorem C02_history :
+  forall (H : bytes -> Z) ops,
+  abs (fst (hrun H init_state ops)) = spec_run empty_log ops (snd (hrun H init_state ops)).
+Proof. intros H ops. exact (proj2 (history_refines H ops init_state good_init)). Qed.
+Print Assumptions C02_history.
